@@ -794,14 +794,23 @@ func c06Matchers(w *World, r *Report) {
 				return
 			}
 			c, isCall := rt.Results[0].(*ssa.Call) // the membership call itself, not what a walked-through helper returned
+			if !isCall {
+				// … or a named result that received it on this path
+				c, isCall = rres(path, rt)[0].(*ssa.Call)
+			}
 			if !isCall || len(c.Call.Args) != 2 || !membershipOK(c.Call.StaticCallee()) || w.nf(c.Call.Args[0], 0) != "param:m" {
 				bad = "the result is not membership of the stanza's type in the configured types"
 				return
 			}
 			v := valueOnPath(c.Call.Args[1], path)
-			for {
+			for k := 0; k < 6; k++ {
 				if ct, ok := v.(*ssa.ChangeType); ok {
 					v = valueOnPath(ct.X, path)
+					continue
+				}
+				// (the type computed by a helper the path went through: what it returned on this path)
+				if rv := resolveOn(v, len(path)-1, path); rv != nil && rv != v {
+					v = rv
 					continue
 				}
 				break
